@@ -23,6 +23,7 @@ FRAME_STEPS = {
     'ping': lambda m: [SFrame(PING, b'p')],
     'ping-empty': lambda m: [SFrame(PING, b'')],
     'ping-125': lambda m: [SFrame(PING, bytes(range(125)))],
+    'ping-high': lambda m: [SFrame(PING, bytes(range(131, 256)))],      # 125 bytes, every value 0x83..0xff (never valid UTF-8)
     'pong': lambda m: [SFrame(PONG, b'')],
     'close-1000': lambda m: [SFrame(CLOSE, ref_ws.close_payload(1000, b'bye'))],
     'close-3000': lambda m: [SFrame(CLOSE, ref_ws.close_payload(3000, b''))],
